@@ -17,7 +17,7 @@ input/output deps that do not mirror each other, a data input flow with no or se
 conflicting accesses to one data copy that are not ordered by the dependencies, write-back of a
 copy to a collection element it did not come from (not performed by non-distributed builds), cycles.
 """
-import itertools, re
+import itertools, re, os
 
 M64 = (1 << 64) - 1
 
@@ -693,10 +693,14 @@ def emit_c(prog, refs):
     """C source defining `ptg_program` (see ptg_exp.h) for the given [(variant, Ref)]."""
     L = ['#include "vdc.h"', '#include "ptg_exp.h"', '#include "%s.h"' % prog.name, '#include "parsec/arena.h"', '']
     colls = sorted(prog.colls)
+    selftest = os.environ.get('VERIF_PTG_SELFTEST')   # 'value': corrupt one expected input value (oracle liveness self-test)
     for vi, R in enumerate(refs):
         preds = []
         L.append('static const ptg_inst_t v%d_inst[] = {' % vi)
         for I in R.inst:
+            if selftest == 'value' and I.in_val and I.preds:
+                fi = sorted(I.in_val)[0]
+                I.in_val = dict(I.in_val); I.in_val[fi] ^= 1; selftest = None
             off = len(preds); preds += I.preds
             nf = len(I.c.flows)
             inm = sum(1 << fi for fi in I.in_val)
